@@ -11,6 +11,9 @@ META = {
     "level": "Decides the structural clauses: a path is returned only straight after _verify raised nothing; the result of the LAST allowed attempt is verified before giving up; inside the loop a checksum failure / non-resumable failure discards the file and continues, a resumable one keeps the partial file and switches to the resume command, and nothing but url exhaustion or an unremovable file ends the loop early; the fetcher's exit code is trusted (file discarded) only for targets without any checksum; _verify compares size first and then every non-size checksum it has a handler for, over a collection that can be iterated repeatedly. Does NOT decide outcome sequences with concrete files.",
     "note": "",
 }
+META["technique"] += "; " + 'sentinel-comparison rule in _verify'
+META["level"] += " Added after the second round of independent changes: " + "(R6) only the size handler's -1 is reported as a missing file; every real size, 0 included, reaches the size comparison."
+META["technique"] += "; " + 'generic pack G on the anchored files (optional-flag shift, closures outliving a loop iteration, single-pass iterables consumed twice, %-templates built from data, in-place writes to class-level / memoised objects, generators mutating what they yielded, memo keys that are projections)'
 CU = "pkgcore.fetch.custom"
 BA = "pkgcore.fetch.base"
 
